@@ -117,6 +117,13 @@ pub enum Fo {
     Y { f: UF },
 }
 
+// sorts before `Foo1<T>` as text (`0` < `<`) although `Foo1` < `Foo10` as identifiers
+#[derive(TS)]
+#[ts(export_to = "m/merged.ts")]
+pub struct Foo10 {
+    pub g: UGx,
+}
+
 #[derive(TS)]
 #[ts(export_to = "m/merged.ts", rename = "A0")]
 pub struct AZero;
@@ -162,6 +169,7 @@ pub fn registry() -> Vec<TypeEntry> {
         TypeEntry::ts::<FooBar>("FooBar", "FooBar"),
         TypeEntry::ts::<Foo1<u8>>("Foo1", "Foo1<u8>"),
         TypeEntry::ts::<Fo>("Fo", "Fo"),
+        TypeEntry::ts::<Foo10>("Foo10", "Foo10"),
         TypeEntry::ts::<AZero>("A0", "AZero"),
         TypeEntry::ts::<LowerZz>("zz", "LowerZz"),
         TypeEntry::ts::<BlankDoc>("BlankDoc", "BlankDoc"),
